@@ -60,6 +60,7 @@ type Event struct {
 
 // Conn is one endpoint. It implements net.Conn.
 type Conn struct {
+	CutFired bool // an injected CutAfterTotal reset has happened on this endpoint
 	n       *Net
 	ID      int
 	Name    string
@@ -333,6 +334,7 @@ func (c *Conn) Write(p []byte) (int, error) {
 			c.enqueue(s, data[:keep])
 		}
 		sim.Fault("conn_cut")
+		c.CutFired = true
 		c.teardown()
 		return len(p), nil // the local stack accepted the bytes; the failure shows on the next operation
 	}
@@ -513,6 +515,7 @@ func (c *Conn) IsClosed() bool { return c.closed }
 
 // Broken reports whether the connection was reset.
 func (c *Conn) Broken() bool { return c.in.reset || c.out.reset }
+
 
 // SetProfiles overrides the per-direction profiles of an established connection (harness side).
 func (c *Conn) SetProfiles(out, in Profile) { c.out.prof, c.in.prof = out, in }
